@@ -10,7 +10,7 @@ package eventloop
 //@ pred qwf(q *queue) = qcap(q) >= 1 && ((q.head == -1 && q.tail == -1) || (0 <= q.head && q.head < qcap(q) && 0 <= q.tail && q.tail < qcap(q)))
 
 //@ func newQueue property C14
-//@   requires capacity >= 1 && capacity <= 281474976710656
+//@   requires capacity >= 1 && capacity <= 17592186044416
 //@   ensures [empty] result.head == -1 && result.tail == -1 && len(result.entries) == capacity
 
 //@ func (*queue).push property C14
